@@ -1144,19 +1144,34 @@ func Script(asserts0 []*Term, preamble string, opts ScriptOpts) string {
 			}
 		}
 	}
+	// canonical order (independent of which functions were verified before in this process; the solvers are sensitive
+	// to declaration order): alias sorts by name, then struct datatypes in creation order (dependencies first), then the
+	// declarations by name
+	var aliasNames []string
 	for _, name := range TS.datatypeOrder {
-		if usedDT[name] {
+		if usedDT[name] && strings.HasPrefix(TS.datatypes[name], "(define-sort ") {
+			aliasNames = append(aliasNames, name)
+		}
+	}
+	sort.Strings(aliasNames)
+	for _, name := range aliasNames {
+		sb.WriteString(TS.datatypes[name])
+		sb.WriteString("\n")
+	}
+	for _, name := range TS.datatypeOrder {
+		if usedDT[name] && !strings.HasPrefix(TS.datatypes[name], "(define-sort ") {
 			sb.WriteString(TS.datatypes[name])
 			sb.WriteString("\n")
 		}
 	}
-	printedDecl := map[string]bool{}
-	for _, name := range TS.declOrder {
-		if usedDecl[name] && !printedDecl[name] {
-			printedDecl[name] = true
-			sb.WriteString(TS.decls[name])
-			sb.WriteString("\n")
-		}
+	var declNames []string
+	for name := range usedDecl {
+		declNames = append(declNames, name)
+	}
+	sort.Strings(declNames)
+	for _, name := range declNames {
+		sb.WriteString(TS.decls[name])
+		sb.WriteString("\n")
 	}
 	// hoist shared closed terms
 	named := map[int]string{}
